@@ -40,7 +40,9 @@ COMPONENTS = {
 PROBES = ["client-abort-0x05040000", "queue-flushed", "block-upload-retransmit", "block-download-retransmit",
           "indistinguishable", "followup-ok"]
 
-KINDS = ("exp-dl", "exp-ul", "seg-dl", "seg-dl-undeclared", "seg-ul", "blk-dl", "blk-ul")
+KINDS = ("exp-dl", "exp-ul", "seg-dl", "seg-dl-undeclared", "seg-ul", "blk-dl", "blk-ul",
+         # the same against the repository's own SdoServer (LocalNode on a second Network)
+         "r-exp-dl", "r-exp-ul", "r-seg-dl", "r-seg-dl-undeclared", "r-seg-ul")
 LEN_EXP = (1, 2, 3, 4)
 LEN_SEG = (0, 1, 4, 5, 7, 8, 14, 15, 21, 27, 29)
 LEN_BLK = (1, 6, 7, 8, 13, 14, 15, 21, 22, 50, 896)
@@ -65,7 +67,14 @@ def jobs(tier, seed):
     return enum, (300_000 if tier == "quick" else 5_000_000)
 
 
-def _length(kind, li, ctx):
+def _length(kind, li, ctx, real=False):
+    n = _length0(kind, li, ctx)
+    if real and n == 0:
+        return 9        # (empty values against the real server are C02's subject)
+    return n
+
+
+def _length0(kind, li, ctx):
     if kind.startswith("exp"):
         return LEN_EXP[li % len(LEN_EXP)]
     if kind.startswith("blk"):
@@ -262,6 +271,63 @@ class W(world.ClientWorld):
     pass
 
 
+class _Store:
+    def __init__(self, local):
+        self.local = local
+
+    def __setitem__(self, key, data):
+        self.local.data_store.setdefault(key[0], {})[key[1]] = bytes(data)
+
+
+class _NoStyle:
+    up = "auto"
+    blksize = None
+    crc = False
+    stall_timeout = 0
+
+
+class RealServerWorld:
+    """Real client on the master Network, real LocalNode/SdoServer on a second
+    Network of the same simulated segment (endpoint name "server")."""
+
+    def __init__(self, ctx):
+        import canopen
+        from canopen import objectdictionary as odm
+        self.ctx = ctx
+        self.ch = world.make_channel(ctx)
+        self.net, self.bus = world.make_network(ctx, self.ch, "master")
+        self.net2, self.bus2 = world.make_network(ctx, self.ch, "server")
+        node_id = 1 + ctx.choice(127, "node")
+        od = canopen.ObjectDictionary()
+        for base in (0x2000, 0x3000, 0x4000):
+            for i in range(16):
+                od.add_object(world.record("R%04X" % (base + i), base + i,
+                                           [world.var("n", base + i, 0, odm.UNSIGNED8)] +
+                                           [world.var("m%d" % k, base + i, k, odm.DOMAIN) for k in (1, 2, 3, 4)]))
+        self.node = canopen.RemoteNode(node_id, canopen.ObjectDictionary())
+        self.net.add_node(self.node)
+        self.local = canopen.LocalNode(node_id, od)
+        self.net2.add_node(self.local)
+        to = (0.3, 0.12, 1.0)[ctx.choice(3, "timeout")]
+        worst = 2 * (self.ch.transport.lat_hi + self.ch.frame_time(8))
+        if to * SEC < 4 * worst:
+            to = 0.3
+        self.node.sdo.RESPONSE_TIMEOUT = to
+        self.timeout = to
+        srv = self
+        self.srv = self
+        # the adapter surface c07 uses
+        self.store = _Store(self.local)
+        self.commits = []
+        self.local.add_write_callback(lambda index, subindex, od, data: self.commits.append((index, subindex, bytes(data))))
+        self.style = _NoStyle()
+        self.illegal = []
+        self.rx_cobid = 0x600 + node_id
+        self.tx_cobid = 0x580 + node_id
+        self.bu_stats = None
+        self.bd_stats = None
+
+
 def _do_transfer(ctx, w, kind, length, index, sub, salt):
     """Run one transfer through the real client API; returns (exc, returned, expected)."""
     node, srv = w.node, w.srv
@@ -330,14 +396,20 @@ def scenario(ctx):
     li = ctx.choice(NLEN, "len")
     st = STEPS[ctx.choice(len(STEPS), "step")]
     fault = FAULTS[ctx.choice(len(FAULTS), "fault")]
-    w = W(ctx)
+    real = kind.startswith("r-")
+    if real:
+        kind = kind[2:]
+        w = RealServerWorld(ctx)
+    else:
+        w = W(ctx)
+    w.real = real
     w.kind = kind
     w.nresp = 0
     plan = Plan(ctx, w.ch.transport.lat_lo, w.ch.transport.lat_hi, w)
     w.ch.transport = plan
     w.ch.monitors.append(plan.on_request)
     srv, node = w.srv, w.node
-    length = _length(kind, li, ctx)
+    length = _length(kind, li, ctx, real)
     if ctx.params.get("tier") == "thorough" and ctx.choice(4, "rndlen") == 1 and not kind.startswith("exp"):
         length = 1 + ctx.choice(3000, "lenv")
     blk = (127, 1, 2, 3, 4, 7)[ctx.choice(6, "blksize")]
@@ -351,7 +423,14 @@ def scenario(ctx):
 
     # ---- warm-up (undisturbed; different object, different bytes)
     with ctx.span("warmup"):
-        i0, s0 = 0x2000 + ctx.choice(16, "i0"), ctx.choice(4, "s0")
+        index, sub = 0x3000 + ctx.choice(16, "i1"), 1 + ctx.choice(4, "s1")
+        rel = ctx.choice(3, "warmmux")
+        if rel == 0:        # another object altogether
+            i0, s0 = 0x2000 + ctx.choice(16, "i0"), 1 + ctx.choice(4, "s0")
+        elif rel == 1:      # same index, other sub-index
+            i0, s0 = index, 1 + (sub - 1 + 1 + ctx.choice(3, "s0")) % 4
+        else:               # other index, same sub-index
+            i0, s0 = index ^ (1 << ctx.choice(4, "i0bit")), sub
         plan.begin()
         n0 = len(srv.commits)
         exc, res, data = _do_transfer(ctx, w, kind, length, i0, s0, 1 + ctx.choice(100, "salt0"))
@@ -374,7 +453,6 @@ def scenario(ctx):
     srv.illegal.clear()
 
     # ---- disturbed transfer
-    index, sub = 0x3000 + ctx.choice(16, "i1"), ctx.choice(4, "s1")
     stale = None
     if fault.startswith("stale"):
         if ctx.choice(3, "stalepick") == 0 and 0 <= step < len(warm):
@@ -415,7 +493,7 @@ def scenario(ctx):
                 indist = _same_shape(kind, plan.injected, nxt)
     if indist:
         ctx.probe("indistinguishable")
-    ctx.cover((kind, li, fault, st if not isinstance(st, int) else min(st, 12), outcome, fired, indist))
+    ctx.cover((("r-" if real else "") + kind, li, fault, st if not isinstance(st, int) else min(st, 12), outcome, fired, indist))
 
     # frames still in flight (e.g. the server's commit after a response the
     # client did not wait for) settle before the outcome is judged
@@ -426,7 +504,7 @@ def scenario(ctx):
     if timeout_abort:
         ctx.probe("client-abort-0x05040000")
     crc_on = bool(w.crc_req and srv.style.crc)
-    cause = "%s/%s%s" % (kind, phase, "" if not kind.startswith("blk") else ("/crc" if crc_on else "/no-crc"))
+    cause = "%s%s/%s%s" % ("real-server/" if real else "", kind, phase, "" if not kind.startswith("blk") else ("/crc" if crc_on else "/no-crc"))
 
     # (1) never success with different data; failure only by SDO errors
     if exc is None:
@@ -447,10 +525,10 @@ def scenario(ctx):
     # (2) a lost response makes the client emit the time-out abort before raising
     # (a late segment of a block upload is not a loss: the client asks for
     # retransmission and the late copy then collides with it)
-    if fired and fault in ("drop", "stale-after", "late") and exc is not None:
-        if isinstance(exc, SdoCommunicationError) and not timeout_abort:
-            ctx.violation("C07/no-timeout-abort/%s@%s" % (cause, site(exc)),
-                          "%s: response lost, client raised %r without emitting an abort frame 80 .. 00 00 04 05 (client frames: %s)" % (what, exc, [f.data.hex() for f in client_frames[-4:]]))
+    if fired and fault in ("drop", "stale-after", "late") and phase != "block-segment":
+        if not timeout_abort and not isinstance(exc, SdoAbortedError):
+            ctx.violation("C07/no-timeout-abort/%s@%s" % (cause, site(exc) if exc is not None else "-"),
+                          "%s: response lost, outcome %r, but the client did not emit an abort frame 80 .. 00 00 04 05 (client frames: %s)" % (what, exc or "normal return", [f.data.hex() for f in client_frames[-4:]]))
     if srv.bu_stats and srv.bu_stats.get("retx"):
         ctx.probe("block-upload-retransmit")
     if srv.bd_stats and srv.bd_stats.get("retx"):
@@ -461,9 +539,9 @@ def scenario(ctx):
     ctx.log("disturbed-done", kind, fault, step, outcome, fired)
     srv.illegal.clear()
     with ctx.span("followup"):
-        k2 = KINDS[ctx.choice(len(KINDS), "kind2")] if ctx.choice(2, "samekind") else kind
-        l2 = _length(k2, ctx.choice(NLEN, "len2"), ctx)
-        i2, s2 = (index, sub) if ctx.choice(2, "sameobj") == 0 else (0x4000 + ctx.choice(16, "i2"), ctx.choice(4, "s2"))
+        k2 = KINDS[ctx.choice(5 if real else 7, "kind2")] if ctx.choice(2, "samekind") else kind
+        l2 = _length(k2, ctx.choice(NLEN, "len2"), ctx, real)
+        i2, s2 = (index, sub) if ctx.choice(2, "sameobj") == 0 else (0x4000 + ctx.choice(16, "i2"), 1 + ctx.choice(4, "s2"))
         plan.begin()
         n2 = len(srv.commits)
         exc2, res2, data2 = _do_transfer(ctx, w, k2, l2, i2, s2, 201 + ctx.choice(50, "salt2"))
